@@ -89,6 +89,14 @@ type GhostUpdate struct {
 	Text string
 }
 
+// GlobalInv: a fact about a package-level variable that only init() writes; assumed at the entry
+// of every function of the package (and after call-outs it is re-assumed on use).
+type GlobalInv struct {
+	Pkg    string
+	Global string
+	Clause *Clause
+}
+
 // ImmutableSpec: a field written only by the listed constructors; its value survives call-outs.
 type ImmutableSpec struct {
 	Field        string // <pkg-relative type>.<field>
@@ -121,6 +129,7 @@ type Contracts struct {
 	Preds     map[string]*PredDef      // by pkgpath + "." + name, and by bare name
 	Expect    map[string]int           // property -> minimum obligations
 	GhostMaps map[string]bool
+	GlobalInvs []*GlobalInv
 	Devirt    map[string]string // interface type (pkgpath.Name) -> concrete struct type (pkgpath.Name); pointer receiver
 	Immutable map[string]*ImmutableSpec // field family prefix (T.f) -> spec
 	Guarded   map[string]*GuardedSpec   // field family prefix (T.f) -> spec
@@ -131,7 +140,7 @@ type Contracts struct {
 var clauseKeywords = map[string]bool{
 	"pred": true, "func": true, "prop": true, "requires": true, "ensures": true, "modifies": true,
 	"loop": true, "pure": true, "inline": true, "trusted": true, "assert": true, "assume": true, "after": true,
-	"remember": true, "devirtualize": true, "immutable": true, "guarded": true, "arith": true, "consumes": true, "implements": true, "let": true, "rely": true, "expect-obligations": true, "iface": true, "nobody": true, "ghostmap": true, "ghost": true,
+	"globalinv": true, "remember": true, "devirtualize": true, "immutable": true, "guarded": true, "arith": true, "consumes": true, "implements": true, "let": true, "rely": true, "expect-obligations": true, "iface": true, "nobody": true, "ghostmap": true, "ghost": true,
 }
 
 var tagRe = regexp.MustCompile(`^\[([^\]]*)\]\s*`)
@@ -270,6 +279,19 @@ func (c *Contracts) parseFile(path, pkgPath string) error {
 				n, _ := strconv.Atoi(f[2])
 				c.Expect[f[0]] = n
 			}
+			continue
+		case "globalinv":
+			// globalinv <global>: expr
+			colon := strings.Index(r.text, ": ")
+			if colon < 0 {
+				return fmt.Errorf("%s:%d: malformed globalinv (want: globalinv <name>: expr)", path, r.line)
+			}
+			cl, err := mk(strings.TrimSpace(r.text[colon+2:]), r.line)
+			if err != nil {
+				return err
+			}
+			c.GlobalInvs = append(c.GlobalInvs, &GlobalInv{Pkg: pkgPath, Global: strings.TrimSpace(r.text[:colon]), Clause: cl})
+			cur = nil
 			continue
 		case "devirtualize":
 			// devirtualize <Interface> <struct>: the interface has a single implementation, *struct
